@@ -68,6 +68,7 @@ type Verifier struct {
 	opaqueDefs      map[string]*opaqueDef
 	lemmasUsed      map[string]bool
 	autoFrameKept   map[string]bool
+	sweepMode       bool
 	curWS           *writeSet
 }
 
@@ -962,6 +963,33 @@ func (v *Verifier) verifyFuncOnce(fn *ssa.Function, con *Contract) (unit *Unit) 
 			e.localRefs = append(e.localRefs, val.term)
 		}
 	}
+	if con == nil && v.sweepMode {
+		// zero-annotation sweep: the function is checked under the default
+		// precondition that its pointer parameters (including the receiver)
+		// are not nil (a nil pointer is never produced from client input; it
+		// would be a defect of the caller)
+		for _, p := range fn.Params {
+			if _, isPtr := p.Type().Underlying().(*types.Pointer); isPtr {
+				st.assume("(not (= " + fr.vals[p].term + " 0))")
+			}
+		}
+		for _, fv := range fn.FreeVars {
+			// a captured variable that is assigned exactly once, before the
+			// closure is created, with a value that is never nil (a make/new/
+			// composite literal/closure, or a pointer parameter of the
+			// declaring function, which that function's own sweep assumes
+			// non-nil) is not nil when the closure runs
+			if capturedNonNil(fn, fv, 0) {
+				lv := e.loadPtr(st, fr.vals[fv], 0)
+				switch e.u.sortOf(lv.typ) {
+				case sortInt:
+					st.assume("(not (= " + lv.term + " 0))")
+				case sortIface:
+					st.assume("(not (= (itag " + lv.term + ") 0))")
+				}
+			}
+		}
+	}
 	// captured variables by name (content of their cells at entry)
 	pre := &SpecEnv{e: e, pkg: fn.Pkg.Pkg, vars: vars, cur: st, where: "requires of " + funcDisplayName(fn)}
 	for _, fv := range fn.FreeVars {
@@ -1401,4 +1429,70 @@ func allocWrittenOnce(a *ssa.Alloc) bool {
 		}
 	}
 	return true
+}
+
+// capturedNonNil: see the comment at its use in verifyFuncOnce.
+func capturedNonNil(fn *ssa.Function, fv *ssa.FreeVar, depth int) bool {
+	p := fn.Parent()
+	if p == nil || depth > 3 || !freeVarWrittenOnce(fn, fv, 0) {
+		return false
+	}
+	idx := -1
+	for i, f := range fn.FreeVars {
+		if f == fv {
+			idx = i
+		}
+	}
+	ok := false
+	for _, b := range p.Blocks {
+		for _, ins := range b.Instrs {
+			mc, isMC := ins.(*ssa.MakeClosure)
+			if !isMC || mc.Fn != ssa.Value(fn) || idx < 0 || idx >= len(mc.Bindings) {
+				continue
+			}
+			switch bv := mc.Bindings[idx].(type) {
+			case *ssa.Alloc:
+				refs := bv.Referrers()
+				if refs == nil {
+					return false
+				}
+				found := false
+				for _, r := range *refs {
+					st, isStore := r.(*ssa.Store)
+					if !isStore || st.Addr != ssa.Value(bv) {
+						continue
+					}
+					if !nonNilProducer(st.Val) {
+						return false
+					}
+					found = true
+				}
+				if !found {
+					return false
+				}
+				ok = true
+			case *ssa.FreeVar:
+				if !capturedNonNil(p, bv, depth+1) {
+					return false
+				}
+				ok = true
+			default:
+				return false
+			}
+		}
+	}
+	return ok
+}
+
+func nonNilProducer(v ssa.Value) bool {
+	switch x := v.(type) {
+	case *ssa.MakeChan, *ssa.MakeMap, *ssa.Alloc, *ssa.MakeClosure, *ssa.Function, *ssa.MakeSlice:
+		return true
+	case *ssa.Parameter:
+		_, isPtr := x.Type().Underlying().(*types.Pointer)
+		return isPtr
+	case *ssa.MakeInterface:
+		return true
+	}
+	return false
 }
